@@ -611,6 +611,12 @@ class IH5Record(IH5Group):
         # NOTE: in read-only mode an uncommitted container is open, but not writable
         if self._has_writable or self._ublock(-1).hdf5_hashsum is None:
             raise ValueError("Cannot merge, please commit or discard your changes!")
+        # a container marked as stub by a user block extension holds no data, whichever
+        # record class is used to look at it: merging it would pose as the real record
+        for ub in self.ih5_meta:
+            for ext in ub.ub_exts.values():
+                if isinstance(ext, dict) and ext.get("is_stub_container"):
+                    raise ValueError("Cannot merge, files contain a stub!")
 
         with type(self)(target, "x") as ds:
             source_node = self["/"]
